@@ -84,6 +84,9 @@ pub fn main(targets: &[Target]) {
     }
     let args = Args::parse(&argv[2..]);
     panics::install_hook();
+    if args.flag("ubonly") {
+        crate::UB_ONLY.store(true, Ordering::Relaxed);
+    }
     match argv[1].as_str() {
         "list" => {
             for t in targets {
@@ -341,6 +344,7 @@ fn shrink_cmd(targets: &[Target], args: &Args) {
                     &param.to_string(),
                     "--quiet",
                 ])
+                .args(if crate::UB_ONLY.load(Ordering::Relaxed) { vec!["--ubonly"] } else { vec![] })
                 .stderr(std::process::Stdio::null())
                 .output();
             match out {
